@@ -80,6 +80,117 @@ CLAIMS = {
              'contains_after_head (<= 4), and the bounded instances of the emission step that supply concrete counter-models.',
         technique='contract-based deductive verification: quantified queue invariant + ghost sequence numbers over a symbolic FIFO, z3',
         design='5/C05'),
+    'C07': dict(
+        level='proof',
+        text='Per-handler transition contracts (K-HANDLER, DESIGN Appendix A) proved on the real ASTs of all six stream handlers, both roles, for every '
+             'abstract state (future pending / cancelled-with-callback-queued; subscribed / never subscribed; each direction open or closed), '
+             'every frame kind incl. the synthetic ERROR of stop_all_streams, local cancel/request, and application callbacks that re-enter '
+             'request()/cancel(): on_subscribe first and once, at most one terminal signal, nothing delivered after the receiving direction '
+             'closed, a request-response future resolved at most once and never touched once done; dispatch reaches a handler only while its '
+             'id is registered (handle_stream / _handle_next_frame contracts), stop_all_streams visits every stream once (loop rule over the key set).',
+        note=TRUST + 'Peer legality (frames a role automaton allows) and reactive-streams legality of application publishers are assumed; '
+             'asyncio.Future semantics as modelled (Appendix B). L-TERMINAL (invariants => at most one terminal over every history) is the meta-level induction over entry points.',
+        technique='contract-based deductive verification: per-entry-point pre/post over ghost signal and wire logs, z3',
+        design='5/C07, App. A'),
+    'C08': dict(
+        level='other',
+        text='Deductive verification with open known findings. Emission clauses of every handler entry point (exact frame kind, own stream id, request frame first '
+             'even with re-entrant request/cancel in on_subscribe, positive initial request-n, nothing after CANCEL / completion, nothing after finish), request '
+             'methods, SETUP content and SETUP-first (at-await invariant of connect), lease gating, keepalive and lease frames on stream 0 are discharged. '
+             'Open: after ERROR on a channel (received or emitted) the library keeps the other direction open - the clause "nothing follows ERROR" fails and is '
+             'listed in known_findings.json with the tests that pin the behaviour. Level "other" because discharged < obligations.',
+        note=TRUST + 'Peer legality and reactive-streams legality assumed.',
+        technique='contract-based deductive verification: emission automaton clauses over a ghost wire log, z3',
+        design='5/C08, App. A'),
+    'C09': dict(
+        level='proof',
+        text='Cancellation contracts proved for every handler (exactly one CANCEL on the own stream then release; responder cancels the producing future / '
+             'subscription exactly once; a requester channel CANCEL ends the channel; nothing delivered to the canceller afterwards; no second CANCEL after '
+             'termination) with the frame clause that other streams are untouched, and for the library sources: cancel() / dispose() of StreamFromGenerator / '
+             'StreamFromAsyncGenerator are total in every state reachable from __init__ (before subscribe, before the first request, requested but feeder '
+             'not yet run, running, finished), cancel both feeder tasks, close a started generator once and call on_cancel once.',
+        note=TRUST + 'That a cancelled asyncio task really stops is an asyncio assumption; Rx dispose path is covered under C20.',
+        technique='contract-based deductive verification: per-entry-point contracts over ghost logs; state enumeration of the source object shapes, z3',
+        design='5/C09'),
+    'C10': dict(
+        level='other',
+        text='Deductive verification with open known findings. finish_stream removes exactly the id from stream table and reassembly cache (quantified frame '
+             'clause); every terminal transition of every handler ends with the id released (complete, complete-flagged element, empty completion, application '
+             'error, peer ERROR, cancel by either side, cancelled future, close); channel: released exactly when both directions are closed, both closing orders; '
+             'fire-and-forget id released when the frame was written; reassembly entry removed with the last fragment (C03). Open: ERROR on a channel closes only '
+             'one direction (known_findings.json). Level "other" because discharged < obligations.',
+        note=TRUST,
+        technique='contract-based deductive verification: release clauses over symbolic stream table / cache maps, z3',
+        design='5/C10'),
+    'C11': dict(
+        level='other',
+        text='Contracts proved: stop_all_streams fails every registered Requester with exactly one ERROR(code, data), disposes every Disposable once, releases every id, '
+             'and is exception-safe (loop rule over the finite key set, arbitrary table, raising handlers); every exit path of _receiver (EOF, transport error, cancellation) '
+             'runs the clean-up once in the order fail-pending / on_close / stop-tasks; the sender absorbs transport errors and runs only its own finaliser; close() stops tasks '
+             'before closing the transport once; keepalive task cancelled by both stop paths. The cut point is the universally quantified pre-state. The composition over '
+             'concurrently running tasks (on_close at most once over receiver + close()) is a meta-level argument on the asyncio model, hence "other".',
+        note=TRUST + 'asyncio task/future semantics assumed (Appendix B); OS/transport behaviour outside.',
+        technique='contract-based deductive verification: loop rule over a symbolic map, exit-path contracts of coroutines with suspension hooks, z3',
+        design='5/C11'),
+    'C12': dict(
+        level='proof',
+        text='parse_or_ignore is total on ARBITRARY bytes under both back ends (returns a frame only if its parse completed, None only for ignorable/misplaced frames, '
+             'raises only Exceptions with the documented classes); the frame generator never lets an exception escape and terminates (C04 variants); the receiver loop body '
+             'answers a protocol error / any application exception with exactly one ERROR on the offending stream and goes on with the next frame, only transport errors and '
+             'cancellation leave it; every handler entry point is proved not to raise for any frame (incl. invalid UTF-8 error data, missing subscriber/publisher) and to touch '
+             'only its own stream; exception_to_error_frame always yields serialisable bytes.',
+        note=TRUST + 'Residual not decided: "requests on other streams are served correctly afterwards" end to end (needs a peer); resource exhaustion.',
+        technique='contract-based deductive verification: totality/containment contracts from the real AST on arbitrary byte strings, z3',
+        design='5/C12'),
+    'C15': dict(
+        level='proof',
+        text='Echo contract of handle_keep_alive (exactly one KEEPALIVE without the flag, same data and position, iff the flag was set; arrival time recorded), per-iteration '
+             'contracts of the keepalive sender (sleeps exactly the keep-alive period, then queues exactly one respond-flagged KEEPALIVE on stream 0; ends only by cancellation) '
+             'and of the timeout task (checks once per max-lifetime; callback iff silence > lifetime, alive flag cleared first), start/stop of the task, and the arithmetic lemma '
+             'L-KEEPALIVE (no timeout while gaps <= lifetime; some check within two lifetimes of the last keepalive sees the timeout) are all discharged.',
+        note=TRUST + 'Virtual clock: asyncio.sleep(d) resumes exactly d later and datetime.now() reads the same clock; handler run time is zero.',
+        technique='contract-based deductive verification: loop-iteration contracts over a ghost clock + mechanised arithmetic lemma, z3',
+        design='5/C15'),
+    'C16': dict(
+        level='proof',
+        text='SETUP content = configuration for all periods (exact ms), encodings (enum/str/bytes normalised), lease flag and payload; queued through the priority path; '
+             'ordering as an at-await invariant of the real connect(): at every suspension point "transport future resolved => SETUP queued at the head" for transports '
+             'whose connect() does or does not suspend and with requests issued meanwhile (kept behind SETUP in order); server: resume / lease-without-publisher => '
+             'UNSUPPORTED_SETUP without calling on_setup, on_setup awaited exactly once with encodings and payload, raising => REJECTED_SETUP, RESUME => REJECTED_RESUME; '
+             'the receiver turns each into one ERROR on stream 0 (C12 contracts).',
+        note=TRUST + 'The sender dequeues only after awaiting the transport future (proved in c05.sender.iteration); head insert itself is a bounded stand-in (queue length <= 5).',
+        technique='contract-based deductive verification: content post-conditions + at-await invariant via suspension hooks, z3',
+        design='5/C16'),
+    'C17': dict(
+        level='other',
+        text='Proved: the post-state of connect() is fresh for EVERY pre-state (any old table/queues/lease, alive flag either value): new stream control whose first id is 1, '
+             'empty queues and reassembly cache, initial lease, receiver and sender restarted, alive flag true and keepalive clock restarted, next transport taken from the '
+             'provider and connected, SETUP queued; one listener step closes the old connection in reconnect mode before installing a fresh transport future and connecting; '
+             'close() semantics. Not decided by contracts: "requests issued afterwards are served" (needs a peer) - hence "other".',
+        note=TRUST + 'Provider and transport abstract; failing of the old requests is the C11 contract of the receiver exit.',
+        technique='contract-based deductive verification: post-state contract quantified over all pre-states, z3',
+        design='5/C17'),
+    'C06': dict(
+        level='other',
+        text='Safety half proved as step contracts on the real code: async_range(n) yields exactly n; _generate_next_n(n) (both sources) yields at most one element per unit '
+             'of credit, at most n, exactly the elements taken from the generator; one queue_next_n iteration asks for exactly the dequeued credit and enqueues exactly the generated '
+             'elements in order up to the first complete; one feed_subscriber iteration delivers exactly the dequeued element once; responder wrappers emit one PAYLOAD per on_next '
+             'on their own stream; REQUEST_STREAM/CHANNEL initial request-n and REQUEST_N are forwarded to Subscription.request with exactly that value, once; initial_request_n / '
+             'request(n) of requesters are transmitted exactly; the collector tops up exactly limit_rate when its window is full. Liveness ("delivers every element once credit '
+             'exists") is not decidable by contracts - hence "other".',
+        note=TRUST + 'Composition gen <= deq <= credit over the two feeder tasks is the meta-level induction over iterations (rely: request queue only grows by request, payload queue only consumed by the feeder).',
+        technique='contract-based deductive verification: loop-iteration step contracts with ghost counters, z3',
+        design='5/C06'),
+    'C18': dict(
+        level='proof',
+        text='Well-known MIME / authentication tables enumerated completely on the module objects (ids distinct, names distinct, both inverse laws, ranges); entry codecs proved '
+             'for all values in range under both back ends: custom MIME header = len-1 then name for every 1..128-byte name, decodes back with the right offset, 129+ bytes '
+             'rejected at encode time; every well-known type in every spelling = one byte 0x80|id and back; simple/bearer authentication and the authentication entry; routing '
+             'tags (<= 255 bytes, longer rejected before anything is returned); stream data MIME type(s); composite entries = header, 24-bit length, body. Lists: step contracts '
+             'of each parse loop at an arbitrary offset of an arbitrary buffer P ++ enc(x) ++ S (one element, exact advance) with variants, serialisers on generic lists.',
+        note=TRUST + 'The list induction (step contract => decode(encode(list)) = list for every list) is meta-level; end-to-end instances for short lists are bounded stand-ins.',
+        technique='contract-based deductive verification: entry codec VCs + parse-loop step contracts; finite tables by exhaustive enumeration',
+        design='5/C18'),
 }
 
 NOT_YET = 'contracts for this property are not built yet'
